@@ -319,6 +319,9 @@ import extras
 PROPS["C16"] = dict(
     exhaustive_parts='n-ary sum and product at arity 1..8 x all 2^N absent/present patterns; terminal reads for all own/partner presence combinations; Axle::new for 0..8 terminals',
     gen=cases.gen_C16,
+    # the macro behind `to_dyn!` has a separate definition for builds with alloc but without std: the "no Reference outlives its
+    # object" half is exercised there too
+    configs=[(None, "chk"), ("libm,chk,devices", "chk nostd")],
     project=cases.project_states,
     extra=extras.c16_extra,
     mask={"cat", "time", "unit", "float"},
@@ -340,11 +343,12 @@ PROPS["C16"] = dict(
 
 PROPS["C17"] = dict(
     gen=cases.gen_C17,
+    configs=[(None, "chk"), ("libm,chk,devices", "chk nostd")],      # alloc without std: another definition of the to_dyn! macro
     snapshot_modules=["Rrtk.Thm.Lemmas.C17Snapshot"],
     extra=extras.c17_extra,
     mask={"cat", "time", "float"},
     rule="six Reference variants x random sequences of up to 12 operations over {clone, to_dyn!, borrow+read, borrow_mut+write, "
-         "increment, drop handle, liveness of the target}; to_dyn! on every variant; 2..8 real threads x 1e3 (1e5) locked increments on the "
+         "increment, drop handle, liveness of the target} + the extended alphabet {to_dyn! of a MOVED handle, raw-pointer alias of the same object, clone_from} run on the heap machine (Rrtk/RefHeap.lean + RefAlias.lean); every line also in a build without std (alloc+libm: the other definition of the to_dyn! macro); to_dyn! on every variant; 2..8 real threads x 1e3 (1e5) locked increments on the "
          "Arc/static Mutex/RwLock variants, final counter = n*k; a downstream crate declaring no features of its own, and one whose library half is #![no_std] while rrtk has std (thorough: also "
          "'alloc', 'alloc+std') converting Rc / static RwLock / static pointer References with to_dyn! and checking aliasing",
     trusted_base=COMMON_TB + ["Gen/ToDyn.lean is regenerated from src/reference.rs (macro definitions, their item-level cfgs, arms and "
